@@ -50,10 +50,13 @@ def showReadErr : ReadErr → String
   | .unknown => "unknown" | .notAvailable => "notavail" | .beyondTip => "beyond"
   | .fileRead => "err:read" | .fileShort => "err:short" | .wrongVersion => "err:version"
 
-def dump (s : DState) : String :=
+def dump (s : DState) (step : Nat := 1) : String :=
   let r := s.repo
   let ids := (s.hdrs.map (·.1)).reverse
   let ids := if ids.contains s.genesis.id then ids else s.genesis.id :: ids
+  -- step > 1: a sample (every step-th id / height plus the first 6 and the last 60)
+  let keepIdx := fun (i n v : Nat) => step ≤ 1 || v % step == 0 || i < 6 || i + 60 ≥ n
+  let ids := (ids.zipIdx.filter fun (v, i) => keepIdx i ids.length v).map (·.1)
   let hh := ids.map fun i => s!"{i}:{(hashHeight r i).getD (-1)}"
   let ch := ids.map fun i => match checkHeader r i with
     | .ok (h, f) => s!"{i}:{h}:{if f then 1 else 0}"
@@ -65,7 +68,7 @@ def dump (s : DState) : String :=
     | some (p, h) => s!"{i}:{p}:{h}"
     | none => s!"{i}:nil"
   let top := (tipHeight r + 1).toNat
-  let ats := ((List.range (top + 1)).filter (· ≥ s.dumpFrom)).map fun (k : Nat) => match headerAt r (Int.ofNat k) with
+  let ats := (((List.range (top + 1)).filter (· ≥ s.dumpFrom)).filter fun k => keepIdx (k - s.dumpFrom) (top + 1 - s.dumpFrom) k).map fun (k : Nat) => match headerAt r (Int.ofNat k) with
     | .ok hd => s!"{k}:{hd.id}"
     | .error e => s!"{k}:{showReadErr e}"
   let rng := fun (a : Int) (n : Nat) => match getHeaders r a n with
@@ -73,7 +76,8 @@ def dump (s : DState) : String :=
     | .error e => s!"{a}+{n}:{showReadErr e}"
   let th := tipHeight r
   let df : Int := s.dumpFrom
-  let ranges := [rng df (top + 2 - s.dumpFrom), rng (if th ≥ 3 then th - 3 else 0) 10, rng (df + (th - df) / 2) 5]
+  let fullN : Nat := if step > 1 && top > 100 + s.dumpFrom then top - 100 else s.dumpFrom
+  let ranges := [rng (fullN : Int) (top + 2 - fullN), rng (if th ≥ 3 then th - 3 else 0) 10, rng (df + (th - df) / 2) 5]
   s!"{tipStr r} hh=[{joinWith "," hh}] ch=[{joinWith "," ch}] gh=[{joinWith "," gh}] ph=[{joinWith "," ph}] at=[{joinWith "," ats}] rg=[{joinWith ";" ranges}]"
 
 def evKind : StoreEv → String
@@ -268,7 +272,7 @@ def stepLine (s0 : DState) (line : String) : DState × String :=
     match kvNat rest "id" with
     | some id => let r := markNotInvalid s.repo id; ({ s with repo := r }, s!"r=ok {tipStr r}")
     | none => (s, "bad-op")
-  | "dump" :: _ => (s, dump s)
+  | "dump" :: rest => (s, dump s ((kvNat rest "step").getD 1))
   | "loc" :: rest =>
     match kvNat rest "max" with
     | some m => (s, s!"loc={showLoc (locator s.repo m)}")
